@@ -54,7 +54,9 @@ CBMC_FLAGS = [
     "--object-bits", "16", "--slice-formula",
 ]
 
-NAME_RE = re.compile(r"(?:^|::)c(\d\d)_([qt])_[A-Za-z0-9_]+$")
+# q = quick + thorough tier, t = thorough tier only, x = experimental (never part of a registered
+# check: bounds that did not finish within the caps; runnable with `run.py harness <name>`)
+NAME_RE = re.compile(r"(?:^|::)c(\d\d)_([qtx])_[A-Za-z0-9_]+$")
 
 
 def log(*a):
@@ -336,7 +338,7 @@ MEM_GATE = MemGate(int(os.environ.get("VERIF_MEM_GB", "64")))
 
 def run_harness(h, tier, want_sample=False):
     cfg = harness_cfg.CFG.get(h["name"], {})
-    got = MEM_GATE.acquire(cfg.get("mem_gb", 8 if tier == "quick" else 20))
+    got = MEM_GATE.acquire(cfg.get("mem_gb", 8 if tier == "quick" else 12))
     try:
         return run_harness_admitted(h, tier, want_sample)
     finally:
@@ -355,7 +357,9 @@ def run_harness_admitted(h, tier, want_sample=False):
         rec["inconclusive"].append(err)
         return rec
     timeout = cfg.get("timeout_s", 600 if tier == "quick" else 3600)
-    mem = cfg.get("mem_gb", 8 if tier == "quick" else 20)
+    if os.environ.get("VERIF_TIMEOUT_CAP"):  # tuning runs only
+        timeout = min(timeout, int(os.environ["VERIF_TIMEOUT_CAP"]))
+    mem = cfg.get("mem_gb", 8 if tier == "quick" else 12)
     rec["bounds"] = dict(unwind=h["unwind"], unwindset=cfg.get("unwindset", []), timeout_s=timeout, mem_gb=mem)
     t1 = time.time()
     if cfg.get("arith"):
@@ -368,7 +372,9 @@ def run_harness_admitted(h, tier, want_sample=False):
             # non-incrementally: with many failing properties (one SAT call per counterexample) it
             # can run out of time/memory where MiniSat (CBMC's default, incremental) finishes.
             cfg2 = dict(cfg, sat="minisat2")
-            r2 = sh(cbmc_cmd(h, cfg2, binary), timeout=timeout, mem_gb=mem)
+            # (a second full-length attempt after a timeout rarely helps on a passing harness:
+            # the retry gets at most 15 minutes)
+            r2 = sh(cbmc_cmd(h, cfg2, binary), timeout=min(timeout, 900), mem_gb=mem)
             res2, status2, msgs2 = parse_cbmc_json(r2.stdout)
             if res2 is not None and not any(p.get("status") == "ERROR" for p in res2):
                 r, res, status, msgs = r2, res2, status2, msgs2
@@ -872,7 +878,7 @@ def check(prop, tier, seed, jobs, only=None):
         write_evidence(prop, tier, seed, [], build_s, time.time() - t0, inconclusive=["encode failed"])
         return 2
     _META["meta"] = meta
-    hs = [h for h in harnesses(meta) if h["prop"] == prop and (tier == "thorough" or h["tier"] == "q")]
+    hs = [h for h in harnesses(meta) if h["prop"] == prop and (h["tier"] == "q" or (tier == "thorough" and h["tier"] == "t"))]
     if only:
         hs = [h for h in hs if any(o in h["name"] for o in only)]
     if not hs:
